@@ -1,9 +1,11 @@
 import L4.Drv.Route
+import L4.Drv.Conn
 open L4 L4.Drv
 
 def dispatch (line : String) : String :=
   match line.splitOn " " with
   | "route" :: rest => (doRoute.run rest).1
+  | "conn" :: rest => (doConn.run rest).1
   | _ => "bad-op"
 
 partial def loop (h : IO.FS.Stream) (out : IO.FS.Stream) : IO Unit := do
